@@ -212,9 +212,18 @@ class MultiDictHistory(Scenario):
             if any(not vs for sl in slots[:2] for vs in sl[1].d.values()):
                 # a wrapped dict holds a key without values: single-key reads, keys(), len() and membership are still
                 # defined, but in which order (and whether) such a key shows up in the value views is not
-                for view in ("items()", "items(multi)", "values()", "lists()", "listvalues()", "to_dict(flat=False)", "to_dict()"):
-                    got_c.pop(view, None)
-                    want_c.pop(view, None)
+                def loose(d_):
+                    for view in ("items()", "items(multi)", "values()"):
+                        if isinstance(d_.get(view), list):
+                            d_[view] = sorted(map(repr, d_[view]))
+                    for view in ("lists()", "listvalues()"):
+                        if isinstance(d_.get(view), list):
+                            d_[view] = sorted(repr(x) for x in d_[view] if (x[1] if view == "lists()" else x))
+                    if isinstance(d_.get("to_dict(flat=False)"), dict):
+                        d_["to_dict(flat=False)"] = {k_: v_ for k_, v_ in d_["to_dict(flat=False)"].items() if v_}
+
+                loose(got_c)
+                loose(want_c)
                 out.probe("combined_view_over_key_without_values")
             if not self.compare(out, pre, "CombinedMultiDict", got_c, want_c, after):
                 return False
@@ -265,7 +274,9 @@ class MultiDictHistory(Scenario):
                 elif name == "setdefault":
                     res, exp = guard(lambda: real.setdefault(k, v)), model.setdefault(k, v)
                 elif name == "setlistdefault":
-                    res, exp = list(real.setlistdefault(k, [v, v2])), model.setlistdefault(k, [v, v2])
+                    given = [v, v2]
+                    res, exp = list(real.setlistdefault(k, given)), model.setlistdefault(k, [v, v2])
+                    given.append("changed-by-the-caller-afterwards")  # the argument is copied, only the returned list is live
                 elif name in ("update", "ior", "or"):
                     r_arg, m_arg, _ = build_arg(arg or ["pairs", []])
                     if name == "update":
